@@ -1987,6 +1987,13 @@ class H2Connection:
         This frame can optionally be received either on a stream or on stream
         0, and its semantics are different in each case.
         """
+        if (not self.config.client_side and
+                self.state_machine.state == ConnectionState.IDLE):
+            # Servers ignore ALTSVC frames (RFC 7838 Section 4). On an idle
+            # connection the state machine would take the frame as proof that
+            # we are a client, so do not even show it to the state machine.
+            return [], []
+
         events = self.state_machine.process_input(
             ConnectionInputs.RECV_ALTERNATIVE_SERVICE
         )
